@@ -58,10 +58,10 @@ theorem nextRequest_eq {cfg : Cfg} {st : B1State} (h : B1Inv cfg st) :
                                 more := decide (st.cursor * blockSize st.szx + blockSize st.szx
                                                   < cfg.payload.length),
                                 szx := st.szx },
-               block2 := none,
+               block2 := hintOpt cfg,
                size1 := if st.cursor = 0 then some cfg.payload.length else none,
                payload := (cfg.payload.drop (st.cursor * blockSize st.szx)).take (blockSize st.szx) }
-      else some { block1 := none, block2 := none, size1 := none, payload := cfg.payload } := by
+      else some { block1 := none, block2 := hintOpt cfg, size1 := none, payload := cfg.payload } := by
   unfold nextRequest
   by_cases hf : cfg.payload.length > threshold cfg st.szx
   · simp only [hf, ↓reduceIte]
@@ -163,6 +163,9 @@ theorem PhaseOk.completeBlock2 (cfg : Cfg) (t : Req) (r : Resp) : PhaseOk cfg (c
     by_cases hst : b2.start ≠ 0
     · simp [hst, PhaseOk]
     rw [if_neg hst]
+    by_cases hg : szxGrows t b2 = true
+    · simp [hg, PhaseOk]
+    rw [if_neg hg]
     by_cases hm : b2.more = true
     · by_cases hn : b2.num ≠ 0
       · simp [hm, hn, PhaseOk]
@@ -187,7 +190,9 @@ theorem PhaseOk.step {cfg : Cfg} {ph : Phase} (h : PhaseOk cfg ph) (r : Resp) :
       rw [step_b1_none ha]
       split
       · simp [PhaseOk]
-      · exact PhaseOk.completeBlock2 cfg cur r
+      · split
+        · simp [PhaseOk]
+        · exact PhaseOk.completeBlock2 cfg cur r
     | some a =>
       rw [step_b1_some ha]
       by_cases hnum : a.num ≠ (sentBlock1 st cur).num
